@@ -252,11 +252,12 @@ CONFIG = {
         "step 2 of the upload (Model/Location.v): Location following, the ':443' repair and the digest query are modelled on plain URLs (no user info, no IPv6 literal, unreserved characters, distinct query keys) as string manipulation and compared with the real PUT URL; other Location forms print UNJUDGED and are judged only by the net/url-based oracle; in the history model the Location stays abstract (repository, session)",
         "Predecessors over a PAGINATING registry: composition with C15 (Model/Paging.v page loop, its hypotheses on Link rendering/resolution and document sizes are inherited); artifact type of a manifest is a parameter atype",
         "Repository options SkipReferrersGC, TagListPageSize, ReferrerListPageSize, MaxMetadataBytes (1 MiB) and HandleWarning are rotated by the generator and must not change any modelled observable; Warning headers: oracle only (every well-formed 299 warning of every response reaches HandleWarning once, in order; others ignored)",
+        "response bodies: how a body hands out its bytes (short reads of any chunk size; the last bytes together with io.EOF or before a separate (0, io.EOF)) is a parameter `modes` (one behaviour per body) of the readSeekCloser model and of C13_seek; the fake registry rotates these behaviours over all its bodies; caller-side content readers rotate over *bytes.Reader, io.NopCloser and an opaque chunking reader whenever the descriptor's size is accurate",
         "net/http transport, redirects, chunked upload and the auth client are not modelled: the client is driven through remote.Client (no sockets); the fake registry builds *http.Response values directly",
         "C13_refines_store_partial hypotheses (wf_hist): descriptors accurate for what the store holds; Resolve/FetchReference of a TAG through a HEAD request only against a registry that sends Docker-Content-Digest (known finding head-tag-no-digest-header; C13_refines_store_refuted is the witness)",
         "the distribution-spec registry is one deterministic state machine per capability profile (digest header, range, Content-Length on GET, mount, referrers); registries that validate manifest contents or convert media types on Accept are outside",
     ],
-    "level_text": "Coq theorems: (1) client o registry refines a content store with tags for every history of Push/Fetch/Exists/Delete/Resolve/FetchReference/Tag/PushReference/Mount/blob Resolve/FetchReference, every capability profile, ManifestMediaTypes option and referrers state (induction over the history with a registry invariant); (2) every request emitted against ANY server is in the request grammar `allowed`; (3) against ANY server a successful call implies a response consistent with the request (digest header, Content-Length, Content-Type, status, Location), plus the single-field-corruption form for Fetch; (4) readSeekCloser refines an in-memory reader for every Read/Seek script and emits Range bytes=off-(size-1) exactly when the offset changes inside the blob; (5) Predecessors over the Referrers API returns exactly the stored manifests with that subject (inside the refinement theorem, for any registry state, and -- composed with C15 -- for any legal pagination); (6) the PUT of a two-step upload follows the Location (authority, path, query + digest) with the documented :443 repair only; (7) the digest-header hypothesis of (1) is tight in every registry state and all 32 profiles are covered (in-Coq computation). Tied to the code by translator-regenerated constants/tables, a differential run of the extracted models against remote.Repository over a fake registry whose complete request/response log is replayed through the extracted Registry.v, and an independent oracle",
+    "level_text": "Coq theorems: (1) client o registry refines a content store with tags for every history of Push/Fetch/Exists/Delete/Resolve/FetchReference/Tag/PushReference/Mount/blob Resolve/FetchReference, every capability profile, ManifestMediaTypes option and referrers state (induction over the history with a registry invariant); (2) every request emitted against ANY server is in the request grammar `allowed`; (3) against ANY server a successful call implies a response consistent with the request (digest header, Content-Length, Content-Type, status, Location), plus the single-field-corruption form for Fetch; (4) readSeekCloser refines an in-memory reader for every Read/Seek script and every body behaviour (chunking, data with EOF; per body) and emits Range bytes=off-(size-1) exactly when the offset changes inside the blob; (5) Predecessors over the Referrers API returns exactly the stored manifests with that subject (inside the refinement theorem, for any registry state, and -- composed with C15 -- for any legal pagination); (6) the PUT of a two-step upload follows the Location (authority, path, query + digest) with the documented :443 repair only; (7) the digest-header hypothesis of (1) is tight in every registry state and all 32 profiles are covered (in-Coq computation). Tied to the code by translator-regenerated constants/tables, a differential run of the extracted models against remote.Repository over a fake registry whose complete request/response log is replayed through the extracted Registry.v, and an independent oracle",
     "level_note": "refinement theorem is _partial: excludes resolving a tag by HEAD without Docker-Content-Digest (known finding, refuted witness proved), manifests with subjects on registries without the Referrers API / referrers state 'unsupported' (tag schema: C14), pagination (C15), inaccurate caller descriptors; net/http, mime, JSON are parameters / not modelled; net/url only for plain URLs",
     "technique": "machine-checked proof in Coq (refinement by induction over histories with a registry invariant; any-server lemmas for request grammar and response consistency; seek state-machine refinement) + translator-regenerated tables + model/implementation correspondence on full request/response traces",
     "explanation": "theorems over all histories/profiles/servers about Model/Registry.v + Model/RemoteClient.v; the extracted models are run on the same generated histories (rotating profiles, PlainHTTP, ManifestMediaTypes, referrers state, one corrupted response field, Read/Seek scripts) as registry/remote against harness/fakereg13 and compared on results and complete request/response logs; independent oracle = Go ground-truth store, distribution-spec endpoint table, must-fail table for contradicting corruptions, bytes.Reader for seeks",
